@@ -227,7 +227,28 @@ class Adapter:
                 pass
         return False
 
-    DAMAGE_KINDS = ['empty', 'trunc', 'garbage', 'zip', 'shape']
+    DAMAGE_KINDS = ['empty', 'trunc', 'garbage', 'zip', 'shape', 'shapebig']
+
+    @staticmethod
+    def big_junk(shape):
+        """A valid .npy holding finite garbage numbers, with a shape that is larger
+        than (and different from) what the file's name promises."""
+        buf = io.BytesIO()
+        np.save(buf, np.random.default_rng(4711).random(shape) * 7 - 3)
+        return buf.getvalue()
+
+    @staticmethod
+    def garbage_of_len(n):
+        """n bytes that are no .npy/.npz file and read as finite doubles"""
+        return (np.random.default_rng(815).random(n // 8 + 1) * 7 - 3).tobytes()[:n]
+
+    def model_op(self, op):
+        """The model operation of a harness operation: overwriting a file in
+        place is, for the models (whose memory caches never alias the disk), the
+        appearance of an unparsable file under that name."""
+        if op[0] == 'overwrite':
+            return ('seed', op[1], op[2], 'garbage')
+        return op
 
     def gen_damage(self, rng, key):
         return ('seed', int(rng.integers(1, 3)), key, self.DAMAGE_KINDS[rng.integers(len(self.DAMAGE_KINDS))])
@@ -248,11 +269,27 @@ class Adapter:
             p = os.path.join(self.env.path(d), self.fname(key))
             good = self.good_file(key)
             data = good if what == 'good' else self.junk_file(key) if what == 'shape' \
-                else damaged_bytes(what, good)
-            with open(p, 'wb') as f:
+                else self.bigjunk_file(key) if what == 'shapebig' else damaged_bytes(what, good)
+            # a new file under this name (new inode; an existing file is never
+            # truncated in place: that is what 'overwrite' is for)
+            with open(p + '.seed-tmp', 'wb') as f:
                 f.write(data)
+            os.replace(p + '.seed-tmp', p)
             if what != 'good':
                 self.damaged.append((p, data))
+            return None
+        if kind == 'overwrite':
+            # the existing file is overwritten IN PLACE (same inode, same length) with
+            # garbage, e.g. after the library has loaded it; creates it when missing
+            _, d, key = op
+            p = os.path.join(self.env.path(d), self.fname(key))
+            n = os.path.getsize(p) if os.path.exists(p) else 0
+            if n < 64:
+                n = max(n, len(self.good_file(key)))
+            data = self.garbage_of_len(n)
+            with open(p, 'r+b' if os.path.exists(p) else 'wb') as f:
+                f.write(data)
+            self.damaged.append((p, data))
             return None
         if kind == 'remove':
             _, d, key = op
@@ -313,7 +350,7 @@ class Adapter:
     def coq_fstate(self, key, what):
         if what == 'good':
             return '(FGood %s)' % self.coq_content(key)
-        if what == 'shape':
+        if what in ('shape', 'shapebig'):
             return 'FShape'
         return '(FBad %s)' % PERR[what]
 
@@ -332,7 +369,7 @@ class Daun(Adapter):
     name = 'daun'
     coq_module = 'CacheDaun'
     file_prefix = 'daun_basis_'
-    REGS = [None, 'nonneg', ('diff', 0.5), ('diff', 2.0), ('L2', 0.5), ('L2c', 0.5), ('L2', 0), 2.0]
+    REGS = [None, 'nonneg', ('diff', 0.5), ('diff', 2.0), ('L2', 0.5), ('L2c', 0.5), ('L2', 0), 2.0, ('L2', 2.0), ('L2c', 2.0)]
     STRENGTH = {0: 0, 0.5: 1, 2.0: 2}
 
     @staticmethod
@@ -371,6 +408,12 @@ class Daun(Adapter):
         buf = io.BytesIO()
         np.save(buf, np.eye(max(1, key[0] // 2)))
         return buf.getvalue()
+
+    def bigjunk_file(self, key):
+        return self.big_junk((key[0] + 2, key[0] + 2))
+
+    def call_key(self, c):
+        return (c['n'], c['degree'])
 
     def coq_content(self, key):
         return '(ideal %d %d)' % key
@@ -429,6 +472,7 @@ class Daun(Adapter):
         return int(fs[-1].split('_')[-2]) if fs else 0
 
     def coq_op(self, op, aux, ref=None):
+        op = self.model_op(op)
         k = op[0]
         if k == 'call':
             c = op[1]
@@ -510,6 +554,12 @@ class Basex(Adapter):
         np.save(buf, np.zeros((2, 1, 1000)))
         return buf.getvalue()
 
+    def bigjunk_file(self, key):
+        return self.big_junk((2, key[0] + 2, key[0] + 2))
+
+    def call_key(self, c):
+        return (c['n'], c['sig'])
+
     def coq_content(self, key):
         return '(ideal %d %d)' % key
 
@@ -555,6 +605,7 @@ class Basex(Adapter):
         return 0
 
     def coq_op(self, op, aux, ref=None):
+        op = self.model_op(op)
         k = op[0]
         if k == 'call':
             c = op[1]
@@ -628,6 +679,12 @@ class Dasch(Adapter):
         np.save(buf, np.eye(max(1, key[1] // 2)))
         return buf.getvalue()
 
+    def bigjunk_file(self, key):
+        return self.big_junk((key[1] + 2, key[1] + 2))
+
+    def call_key(self, c):
+        return (c['meth'], c['n'])
+
     def coq_content(self, key):
         return '(ideal %d %d)' % key
 
@@ -677,6 +734,7 @@ class Dasch(Adapter):
         return [int(f.split('_')[-1].split('.')[0]) for f in fs]
 
     def coq_op(self, op, aux, ref=None):
+        op = self.model_op(op)
         k = op[0]
         if k == 'call':
             c = op[1]
@@ -754,6 +812,12 @@ class Linbasex(Adapter):
         np.save(buf, np.zeros((2 * key[0], 6)))
         return buf.getvalue()
 
+    def bigjunk_file(self, key):
+        return self.big_junk((len(key[2]) * (key[0] + 2), key[0] + 3))
+
+    def call_key(self, c):
+        return (c['n'], tuple(c['orders']), tuple(c['angles']), c['step'], c['clip'])
+
     def coq_key(self, key):
         cols, orders, angles, step, clip = key
         return '(%d, key_of %s %s %d %d)' % (cols, cnats(orders), cnats(angles), step, clip)
@@ -808,6 +872,7 @@ class Linbasex(Adapter):
         return 0
 
     def coq_op(self, op, aux, ref=None):
+        op = self.model_op(op)
         k = op[0]
         if k == 'call':
             c = op[1]
@@ -856,10 +921,13 @@ class Rbasex(Adapter):
     file_prefix = 'rbasex_basis_'
     SHAPES = [(9, 9), (9, 11)]
     ORIGINS = ['center', (3, 4)]
-    RMAXS = ['MIN', 3, 'foo']
+    # 4: the frame height of a (9, 9) image is 2 rmax + 1 also for the off-centre origin;
+    # 7: beyond the corners of all frames (radii without data)
+    RMAXS = ['MIN', 3, 'foo', 4, 7]
     REGS = {0: None, 1: 'pos', 2: ('L2', 1.0), 3: ('diff', 1.0), 4: ('SVD', 0.5), 8: ('SVD', 2.0), 9: 'foo'}
     OUTS = ['same', 'fold', 'unfold', 'full', 'full-unique', None]
-    WSHAPE = {1: (9, 9), 2: (9, 9), 3: (9, 11)}
+    # 4: weights with a ring of zeros around the frame centre (radii without data)
+    WSHAPE = {1: (9, 9), 2: (9, 9), 3: (9, 11), 4: (9, 9)}
 
     def __init__(self, env):
         Adapter.__init__(self, env)
@@ -872,6 +940,10 @@ class Rbasex(Adapter):
     @staticmethod
     def wcontent(wid, ver):
         w = np.random.default_rng(1000 + wid).random(Rbasex.WSHAPE[wid]) + 0.5
+        if wid == 4:
+            y, x = np.indices(w.shape)
+            r = np.hypot(y - w.shape[0] // 2, x - w.shape[1] // 2)
+            w[(r > 1) & (r < 3)] = 0
         for v in range(ver):
             w[(2 + v) % w.shape[0], :] *= 0.25
             w[:, (1 + 2 * v) % w.shape[1]] = 0
@@ -921,6 +993,21 @@ class Rbasex(Adapter):
         np.save(buf, np.array([np.eye(k + 1)] * n))
         return buf.getvalue()
 
+    def bigjunk_file(self, key):
+        n = 1 + (key[1] if key[2] else key[1] // 2)
+        return self.big_junk((n, key[0] + 3, key[0] + 3))
+
+    def call_key(self, c):
+        if c.get('kind') == 'getbs':
+            return (c['rmax'], c['order'], int(bool(c['odd'])), int(c['direction'] == 'inverse'))
+        r = self.RMAXS[c['rmax']]
+        if not isinstance(r, int):
+            h, w = self.SHAPES[c['shape']]
+            o = self.ORIGINS[c['origin']]
+            row, col = (h // 2, w // 2) if o == 'center' else o
+            r = min(row, h - 1 - row, col, w - 1 - col)
+        return (r, c['order'], int(self.eff_odd(c)), int(c['direction'] == 'inverse'))
+
     def coq_key(self, key):
         return '{| fk_rmax := %d; fk_order := %d; fk_odd := %s; fk_inv := %s |}' % (
             key[0], key[1], cbool(key[2]), cbool(key[3]))
@@ -938,7 +1025,7 @@ class Rbasex(Adapter):
         # reg='pos' only where the library supports it (inverse; not odd with order > 1)
         regs = [0, 0, 0, 2, 3, 4, 8, 9] + ([1] if direction == 'inverse' and not (eff_odd and order > 1) else [])
         return self.fix_call(dict(shape=sh, origin=int(rng.integers(2)),
-                    rmax=int(rng.choice([0, 0, 0, 1, 2])), order=order, odd=odd,
+                    rmax=int(rng.choice([0, 0, 0, 0, 1, 2, 3, 4])), order=order, odd=odd,
                     wid=int(wids[rng.integers(len(wids))]) if rng.random() < 0.5 else 0,
                     direction=direction,
                     reg=int(regs[rng.integers(len(regs))]), out=int(rng.integers(len(self.OUTS))),
@@ -1077,6 +1164,7 @@ class Rbasex(Adapter):
         return dict(listing=listing, wver=self.wver[c['wid']] if c.get('wid') else 0)
 
     def coq_op(self, op, aux, ref=None):
+        op = self.model_op(op)
         k = op[0]
         if k == 'call' and op[1].get('kind') == 'getbs':
             c = op[1]
